@@ -20,6 +20,7 @@ EXPLANATION = (
     "with e not proven positive, and the ramp pair is asserted to sum to one; (D5) tscale is (first+last-1)/2/fs. "
     "The numeric statement over all (length, window, overlap) triples is implied by these identities only together "
     "with integer arithmetic facts (stated in the evidence); it is not enumerated."
+    ' (D4 as built) the amplitude vector is abstracted as interval events (ones, slice stores, template slices, flips) and its final arrangement is compared, for every window class (interior / first / last / single) and every (nswin, overlap, window length) in a small box, with: rising ramp on the first `overlap` samples iff the window has a predecessor, mirrored ramp on the last `overlap` samples iff it has a successor, one elsewhere.'
 )
 ASSUMPTIONS = [
     "ns, nswin, overlap are integers with 0 <= overlap < nswin (the property's precondition)",
